@@ -5,7 +5,6 @@ from typing import Optional, Union
 from ..._string_utils import infer_suggestions, quoted_options_list
 from ...exc import ScalarParsingError, UnknownEnumValue
 from ...lang import ast as _ast
-from ...lang.visitor import SkipNode
 from ...schema import (
     EnumType,
     GraphQLType,
@@ -114,8 +113,11 @@ class ValuesOfCorrectTypeChecker(ValidationVisitor):
             else None
         )
         if not isinstance(named_type, InputObjectType):
+            # The fields are still visited (their expected types are unknown
+            # and nothing is reported for them): skipping them would hide
+            # them from every other rule, e.g. the variables they use.
             self._check_scalar(node)
-            raise SkipNode()
+            return
 
         input_fields = [f.name.value for f in node.fields]
         for field_def in named_type.fields:
